@@ -180,6 +180,12 @@ func main() {
 		if *tier == "thorough" && len(spec.Mutants) > 0 && len(r.Violations) == 0 {
 			r.SelfTest = append(r.SelfTest, runSelfTest(spec)...)
 			for _, s := range r.SelfTest {
+				if s.Result == "FALSE-ALARM" {
+					o := Oblig{Prop: id, Rule: "self-test", Construct: s.Name, Status: Undecided, Engine: "selftest",
+						Detail: "stored behaviour-preserving edit " + s.Name + " applied in memory makes " + s.Fired + " fail: the rule alarms on code where the property holds"}
+					r.Obligs = append(r.Obligs, o)
+					r.Violations = append(r.Violations, o)
+				}
 				if s.Result == "MISSED" {
 					// a rule that no longer fires on its stored breaking edit is not trusted
 					o := Oblig{Prop: id, Rule: "self-test", Construct: s.Name, Status: Undecided, Engine: "selftest",
@@ -277,6 +283,19 @@ func runOneMutant(spec *PropSpec, m Mutant) selfTestResult {
 		if r.LoadErr != nil {
 			res.Result = "broken-build"
 			res.Fired = r.LoadErr.Error()
+			out = append(out, res)
+			continue
+		}
+		if m.Expect == "!silent" {
+			// a behaviour-preserving edit: every obligation must still be decided and held
+			res.Result = "silent"
+			for _, o := range r.Obligs {
+				if o.Status == Violated || o.Status == Undecided {
+					res.Result = "FALSE-ALARM"
+					res.Fired = o.Key()
+					break
+				}
+			}
 			out = append(out, res)
 			continue
 		}
